@@ -4,6 +4,7 @@ import (
 	"bytes"
 	"context"
 	"fmt"
+	"io"
 	"io/ioutil"
 	"math/rand"
 	"os"
@@ -50,6 +51,10 @@ type params struct {
 	Ops  []op   `json:"ops,omitempty"`
 	K    int    `json:"writers,omitempty"`
 	Seed int64  `json:"seed"`
+	// Retry: the store keeps its default put-retry policy (a losing exclusive writer then retries for ~30 s)
+	Retry bool `json:"default_retry,omitempty"`
+	// Plain: sources are plain readers (no WriterTo), the other write path of Put
+	Plain bool `json:"plain_reader,omitempty"`
 }
 
 var comps = []string{"a", "ab", "a-b", "a.b", "a b", "b", "é", "abc", "a_b"}
@@ -133,13 +138,26 @@ func gen16(seed int64, tier string) []drv.Case {
 	for i := 0; i < nl; i++ {
 		add("linearizable", params{Mode: "linearizable", K: 3 + r.Intn(4)})
 	}
+	// the default configuration of the store retries failed puts with exponential back-off for 30 s: the losers of an
+	// exclusive write must still lose (two cases per tier unit, one per write path; each takes the 30 s the losers retry)
+	nr := 1
+	if tier == "thorough" {
+		nr = 4
+	}
+	for i := 0; i < nr; i++ {
+		add("exclusive-writers-default-retry", params{Mode: "exclusive", K: 2 + r.Intn(4), Retry: true})
+		add("exclusive-writers-default-retry", params{Mode: "exclusive", K: 2 + r.Intn(4), Retry: true, Plain: true})
+	}
 	return cs
 }
 
-func newStore() (storage.Store, string, func()) {
+func newStore(defaultRetry ...bool) (storage.Store, string, func()) {
 	dir, err := os.MkdirTemp(os.Getenv("VERIF_SCRATCH"), "c16-")
 	if err != nil {
 		panic(err)
+	}
+	if len(defaultRetry) > 0 && defaultRetry[0] {
+		return localfs.New(afero.NewBasePathFs(afero.NewOsFs(), dir), localfs.WithLogger(zap.NewNop())), dir, func() { os.RemoveAll(dir) }
 	}
 	return localfs.New(afero.NewBasePathFs(afero.NewOsFs(), dir), localfs.WithRetry(false), localfs.WithLogger(zap.NewNop())), dir, func() { os.RemoveAll(dir) }
 }
@@ -218,7 +236,7 @@ func classify(got, want []string) string {
 func run16(c drv.Case, res *drv.Result) {
 	var p params
 	drv.Params(c, &p)
-	s, _, cleanup := newStore()
+	s, _, cleanup := newStore(p.Retry)
 	defer cleanup()
 	ctx := context.Background()
 	res.Canon = string(c.Params)
@@ -404,7 +422,14 @@ func run16(c drv.Case, res *drv.Result) {
 			go func(g int) {
 				defer wg.Done()
 				<-start
-				errs[g] = s.Put(ctx, "dir/key", strings.NewReader(fmt.Sprintf("writer-%d-%s", g, strings.Repeat("x", 3000+g))), storage.NoOverWrite)
+				var src io.Reader = strings.NewReader(fmt.Sprintf("writer-%d-%s", g, strings.Repeat("x", 3000+g)))
+				if p.Plain {
+					src = struct{ io.Reader }{src}
+				}
+				if p.Retry && g == p.K-1 {
+					time.Sleep(50 * time.Millisecond) // a late writer: the key certainly exists when it starts
+				}
+				errs[g] = s.Put(ctx, "dir/key", src, storage.NoOverWrite)
 			}(g)
 		}
 		close(start)
